@@ -30,9 +30,10 @@ import ZygoVerif.Spec.AtRest
 import ZygoVerif.Model.StackEffect
 import ZygoVerif.Model.LegacyBalance
 import ZygoVerif.Proofs.Balanced
+import ZygoVerif.Proofs.GenBalanced
 import ZygoVerif.Generated.InstrSet
 namespace ZygoVerif.C04
-open ZygoVerif.Bal
+open ZygoVerif.Bal ZygoVerif.VM ZygoVerif.Core
 
 /-! ## The checker speaks about the real instruction set -/
 
@@ -185,5 +186,86 @@ theorem legacy_tailcall_arity_refused : checkB Legacy.tailArity = false := by de
 theorem legacy_selector_assign_counterexample (D : List Cell) (S A : Nat) :
     ∃ c, Legacy.ReachL Legacy.selAssignBody ⟨0, D, S, A⟩ c ∧ AtRet Legacy.selAssignBody c ∧ c.data = D :=
   Legacy.selAssign_run D S A
+
+/-! ## The generator emits balanced code -/
+
+/-- **gen_balanced**, full statement: whatever the modelled generator (`Model/Gen.lean`)
+compiles for a program — the top-level code of the text AND the body of every function
+template it creates on the way — is accepted by the verifier. `B T` reads a model listing
+as a checker listing, taking break/continue offsets from the loop table `T`. -/
+def GenBalanced : Prop :=
+  ∀ (isFn : Nat → Bool) (es : List Expr) (gs gs' : GS) (code : List Instr) (t : Bool),
+    compileBegin isFn {} es gs = Except.ok ((code, t), gs') →
+    (∃ ann, verify { kind := .top, code := B gs'.loops code } ann = true)
+    ∧ ∀ i, gs.fns.length ≤ i → ∀ f ∈ gs'.fns[i]?, f.code ≠ [] →
+        ∃ ann, verify { kind := .fn, nformals := f.params.length, varargs := f.varargs, nfixed := f.nargs,
+                        code := B gs'.loops f.code } ann = true
+
+/-- **gen_balanced_partial** — proved by induction over the expression grammar (the eight
+mutually recursive `compile*` functions) for every program built from literals, symbols,
+array literals, calls, `begin`, `def`, `set`, `cond` with any number of arms, `and`/`or` with
+any number of arms, `let`, `letseq`, `newScope`, `fn`/`defn` (as the closure-creating forms
+they are in the enclosing code) and selector assignment, nested to any depth (`okAs`): the
+top-level code of the text is balanced, for every loop table.
+
+MISSING for `GenBalanced`:
+* `for` / `break` / `continue`: the combinators the induction needs are there and generic in
+  the loop context `Γ` (`FragOK Γ`, `efrag_branch_over`, `efrag_branch_skip`, `frag_seq`), the
+  cut-back rule is proved sound in `checker_sound`; what is not done is the loop layout lemma
+  for `asmFor` and the bookkeeping that ties `Γ` to the generator's loop table and loop stack.
+  Every loop the real generator emitted in this run was checked instance by instance (`bal`).
+* function bodies (second conjunct): the body of a template is compiled with the tail flag
+  on, which adds the self-tail-call path (`prepareCall; removeScope…; goto 0`); same status. -/
+theorem gen_balanced_partial (isFn : Nat → Bool) (es : List Expr) (gs gs' : GS) (code : List Instr)
+    (t : Bool) (T : List LoopRec) (hok : okAs es = true)
+    (h : compileBegin isFn {} es gs = Except.ok ((code, t), gs')) :
+    ∃ ann, verify { kind := .top, code := B T code } ann = true := by
+  cases es with
+  | nil =>
+    simp only [compileBegin, pure_ok] at h
+    cases h
+    exact ⟨[some restState], by simp only [B, List.map_nil]; decide⟩
+  | cons e es =>
+    obtain ⟨_, hadds⟩ := bal_compileBegin isFn (e :: es) {} gs code t gs' rfl hok (by simp) h
+    obtain ⟨mid, hfrag⟩ := hadds [] T restState (by decide)
+    exact ⟨_, verify_top_of_frag (B T code) mid hfrag⟩
+
+/-- The helper function the VM compiles for an operand (`EvalCallExpression`) or a lazy
+argument (`Force`): `Generate(expr)` followed by `ret`. For the same class of expressions it
+is balanced: it returns with exactly one value on top of what its caller had — so the nested
+`Run` pops that value and nothing of the caller. -/
+theorem gen_balanced_operand (isFn : Nat → Bool) (e : Expr) (gs gs' : GS) (code : List Instr)
+    (t : Bool) (T : List LoopRec) (hok : okA e = true)
+    (h : compile isFn {} e gs = Except.ok ((code, t), gs')) :
+    ∃ ann, verify { kind := .thunk, code := B T (code ++ [Instr.ret]) } ann = true := by
+  obtain ⟨_, hadds⟩ := bal_compile isFn e {} gs code t gs' rfl hok h
+  obtain ⟨mid, hfrag⟩ := hadds [] T restState (by decide)
+  have := verify_thunk_of_frag (B T code) mid hfrag
+  exact ⟨(restState :: mid ++ [bump restState 1]).map some ++ [none], by simpa [B, toB] using this⟩
+
+/-- Generator and checker together: an operand of the covered class, run in the stack-effect
+machine on top of ANY caller stack, returns with exactly one value on top of it. -/
+theorem operand_returns_one_value (isFn : Nat → Bool) (e : Expr) (gs gs' : GS) (code : List Instr)
+    (t : Bool) (T : List LoopRec) (hok : okA e = true)
+    (h : compile isFn {} e gs = Except.ok ((code, t), gs'))
+    (D : List Cell) (S A : Nat) (c : CState)
+    (hreach : Reach { kind := .thunk, code := B T (code ++ [Instr.ret]) } ⟨0, D, S, A⟩ c)
+    (hret : AtRet { kind := .thunk, code := B T (code ++ [Instr.ret]) } c) :
+    c.data = .val :: D ∧ c.sc = S := by
+  obtain ⟨ann, hv⟩ := gen_balanced_operand isFn e gs gs' code t T hok h
+  have := checker_sound _ ann hv D S A ⟨0, D, S, A⟩ c rfl (by simp [Fn.entryCount]) rfl rfl hreach
+  exact ⟨(this.2.1 hret).1, (this.2.1 hret).2.1⟩
+
+/-- Non-vacuity: a nested program of the covered class compiles, and the theorem applies. -/
+example : ∃ code t gs', okAs [Expr.def_ "a" (.int 1),
+      .let_ false [("x", .sym "a"), ("y", .int 2)]
+        [.cond [(.call (.sym "<") [.sym "x", .sym "y"], .and_ [.sym "x", .or_ [.sym "y", .nilLit]])]
+               (.begin_ [.set_ "a" (.sym "y"), .arr [.sym "x", .sym "y"]])]] = true
+    ∧ compileBegin (fun _ => false) {} [Expr.def_ "a" (.int 1),
+      .let_ false [("x", .sym "a"), ("y", .int 2)]
+        [.cond [(.call (.sym "<") [.sym "x", .sym "y"], .and_ [.sym "x", .or_ [.sym "y", .nilLit]])]
+               (.begin_ [.set_ "a" (.sym "y"), .arr [.sym "x", .sym "y"]])]] { fns := [] }
+      = Except.ok ((code, t), gs') ∧ code.length = 29 :=
+  ⟨_, _, _, by decide, rfl, by decide⟩
 
 end ZygoVerif.C04
